@@ -1,5 +1,6 @@
 import TdVerif.Sexp
 import TdVerif.Model.C08Lazy
+import TdVerif.Model.C08Lazy2
 
 namespace TdVerif.Drive
 open TdVerif Sexp TdVerif.C08
@@ -83,6 +84,12 @@ def membersToSexp : Option (Lazy Int) → Sexp
   | none => tagged "err" []
   | some L => tagged "ok" (tagged "sd" [ofNat L.sd] :: L.members.map fun m => tagged "member" (tdToSexp m))
 
+def res2ToSexp : Option (LRes2 Int) → Sexp
+  | none => tagged "err" []
+  | some (.inner r) => tagged "ok" (tagged "kind" [.atom "inner"] :: tdToSexp (absR r))
+  | some (.lazy sd rs) => tagged "ok" (tagged "kind" [.atom "lazy", ofNat sd, ofNat rs.length] :: tdToSexp (absR2 (.lazy sd rs)))
+  | some (.empty b) => tagged "ok" [tagged "kind" [.atom "empty"], tagged "bs" (b.map ofNat)]
+
 def boolS (b : Bool) : Sexp := .atom (if b then "true" else "false")
 
 def splitToSexp : Option SplitSt → Sexp
@@ -116,7 +123,7 @@ def handleC08 (cmd : String) (args : List Sexp) : Option Sexp :=
       let sd ← asNat? sd
       let feats ← featsOf? feats
       let ix ← ixsOf? ix
-      pure (resToSexp (lazyGet (mkLazy bs n sd feats) ix))
+      pure (resToSexp (lazyGetM (mkLazy bs n sd feats) ix))
   -- dense spec on the stacked members: (c08.dense (bs ..) n sd (feats ..) (ix ..))
   | "c08.dense", [bs, n, sd, feats, ix] => do
       let bs ← shapeOf? bs
@@ -170,6 +177,50 @@ def handleC08 (cmd : String) (args : List Sexp) : Option Sexp :=
         | some (bs, n) => mkOperand bs n sd feats j
         | none => mkOperand [] 0 sd feats j
       pure (resToSexp ((lazyCat Ls dim).map .lazy))
+  -- (c08.stack sd dim (feats ..) (op (bs ..) n) ..) : torch.stack of lazy stacks sharing their stack dim, no out=
+  | "c08.stack", sd :: dim :: feats :: ops => do
+      let sd ← asNat? sd
+      let dim ← asInt? dim
+      let feats ← featsOf? feats
+      let ops ← ops.mapM fun
+        | .list [.atom "op", bs, n] => do pure ((← shapeOf? bs), (← asNat? n))
+        | _ => none
+      let Ls := (List.range ops.length).map fun j =>
+        match ops[j]? with
+        | some (bs, n) => mkOperand bs n sd feats j
+        | none => mkOperand [] 0 sd feats j
+      pure (resToSexp ((lazyStackOp Ls dim).map .lazy))
+  -- (c08.insert (bs ..) n sd (feats ..) index) : members after `lazy.insert(index, new)` (new = operand 7 provenance)
+  | "c08.insert", [bs, n, sd, feats, index] => do
+      let bs ← shapeOf? bs
+      let n ← asNat? n
+      let sd ← asNat? sd
+      let feats ← featsOf? feats
+      let index ← asInt? index
+      let L := mkLazy bs n sd feats
+      let new := ((mkOperand bs 1 sd feats 7).members[0]?).getD default
+      pure (resToSexp ((lazyInsert L index new).map .lazy))
+  -- (c08.update_ (bs ..) n sd (feats ..) (keys k ..)) : members after `lazy.update_(value)`, value = mkValue of the full batch restricted to the keys
+  | "c08.update_", [bs, n, sd, feats, .list (.atom "keys" :: ks)] => do
+      let bs ← shapeOf? bs
+      let n ← asNat? n
+      let sd ← asNat? sd
+      let feats ← featsOf? feats
+      let ks ← ks.mapM asAtom?
+      let L := mkLazy bs n sd feats
+      let v := mkValue L.batch feats
+      pure (membersToSexp (lazyUpdate_ L { v with keys := ks }))
+  -- (c08.get2 (bs ..) n_in n_out sd_in sd_out (feats ..) (ix ..)) : read on a stack of stacks
+  | "c08.get2", [bs, nin, nout, sdin, sdout, feats, ix] => do
+      let bs ← shapeOf? bs
+      let nin ← asNat? nin
+      let nout ← asNat? nout
+      let sdin ← asNat? sdin
+      let sdout ← asNat? sdout
+      let feats ← featsOf? feats
+      let ix ← ixsOf? ix
+      let L2 : Lazy2 Int := ⟨(List.range nout).map fun j => mkOperand bs nin sdin feats j, sdout⟩
+      pure (res2ToSexp (lazyGet2 L2 ix))
   | "c08.split", [bs, n, sd, ix] => do
       let bs ← shapeOf? bs
       let n ← asNat? n
